@@ -27,6 +27,7 @@ var (
 	hOAEPCalls []hOAEPCall
 	hRandCalls int
 	hRandFails bool
+	hOAEPFailAt int // 1-based number of the EncryptOAEP call that fails (0: none)
 	hKeyObj    = &rsa.PublicKey{N: big.NewInt(0), E: 65537}
 )
 
@@ -59,6 +60,9 @@ func vfParsePKCS1PublicKey(der []byte) (*rsa.PublicKey, error) {
 
 func vfEncryptOAEP(pub *rsa.PublicKey, msg, label []byte) ([]byte, error) {
 	hOAEPCalls = append(hOAEPCalls, hOAEPCall{msg: append([]byte{}, msg...), label: label, pub: pub})
+	if hOAEPFailAt != 0 && len(hOAEPCalls) == hOAEPFailAt {
+		return nil, errors.New("crypto/rsa: message too long for RSA key size")
+	}
 	// opaque ciphertext, independent of the plaintext, fresh per call
 	n := len(hOAEPCalls)
 	return []byte{0xC1, 0xFE, byte(n), 0xED}, nil
